@@ -41,26 +41,6 @@ theorem progress_from (c : Cfg) (A : Nat) (ins : List In) : ∀ (s : State) (w :
       obtain ⟨t, ht, hgt⟩ := ih _ _ (tok_step c s i hk) hw' hrest hlen'
       exact ⟨t + 1, by omega, hgt⟩
 
-/-- width-dependent worst case of a timer: from reset it first wraps once -/
-def remMax (t : Option Nat) : Nat := match t with | none => 0 | some x => 2 ^ maxBits (max x 2)
-
-theorem rem_le (t : Option Nat) (tx : TX) (h : TxOk t tx) : rem t tx ≤ remMax t := by
-  cases t with
-  | none => simp [rem, remMax]
-  | some x => simp only [rem, remMax, TxOk] at *; split <;> (try split) <;> omega
-
-/-- explicit bound, independent of the state -/
-def phiMax (c : Cfg) (A : Nat) : Nat :=
-  2 * remMax (some c.twtp) + remMax c.tRAS + remMax c.tRC + c.tRAS.getD 0 + 2 * A + 2 * c.tRP + c.tRCD + 4
-
-theorem phi_le (c : Cfg) (A : Nat) (s : State) (w : Nat) (hk : TOk c s) : phi c A s w ≤ phiMax c A := by
-  have h1 := rem_le _ _ hk.w
-  have h2 := rem_le _ _ hk.a
-  have h3 := rem_le _ _ hk.r
-  have h4 : rem c.tRAS s.tras ≤ remMax c.tRAS + c.tRAS.getD 0 := by omega
-  simp only [phi, phiMax]
-  cases s.fsm <;> simp only [] <;> (try split) <;> omega
-
 def runBm (c : Cfg) (s : State) (ins : List In) : State := ins.foldl (fun st i => (BankMachine.step c st i).1) s
 
 theorem tok_reachable (c : Cfg) (pre : List In) : TOk c (runBm c (State.init c) pre) := by
